@@ -55,7 +55,9 @@ META = {
     "rule": "case = pygen module model x 0..4 inline markers ('# pragma: no cover' / '# pynguin: no cover' in 2-3 spellings, "
             "decoy comments) on def/class headers, simple statements, if/elif/for/while headers, else:/except: lines x optional "
             "TYPE_CHECKING block (top) and __main__ block (end) x no_cover / only_cover / ignore_methods names of module-level "
-            "functions, classes, methods, properties and directly nested functions x the two enable_inline_* flags; "
+            "functions, classes, methods, properties and directly nested functions x the two enable_inline_* flags; ~25% of the "
+            "cases get an extra directed function (lambda default on the def line + marker on a loop/if/else inside; "
+            "try/except/else/finally with a marker on/in the else clause; marked if with an early exit right after a try); "
             "non-trivial = an active exclusion (marker nested inside a compound statement or scope, a scope name, or a block) "
             "removes at least one executable line AND at least one line goal survives; distinct by the whole case",
     "assumptions": [
@@ -390,6 +392,97 @@ def plan_strategy(model: dict[str, Any], always: bool = False, weights: dict[str
     return plans()
 
 
+# ---- directed statement shapes (a small template family on top of pygen; mixed into ~25% of the cases)
+DIRECTED_NAME = "d0"
+_LAMBDA_DEFAULT = "k0=lambda v: v"  # a nested scope that starts on the ``def`` line of its enclosing function
+
+
+def _directed_function(shape: int, opts: list[int]) -> dict[str, Any]:
+    """Function model ``d0`` of one of three shapes (pygen statement models, rendered by ``pygen.render``).
+
+    0: loop + ``if``/``else`` with a nested ``if``;  1: ``try``/``except``/``else``/``finally`` with code in every clause;
+    2: ``try`` whose handler leaves the function, directly followed by an ``if`` with an early exit and further ``if``s.
+    """
+    nm, cst, call, meth = pygen.N, pygen.C, pygen.CALL, pygen.METH
+
+    def cmp(op: str, left: Any, right: Any) -> dict[str, Any]:
+        return {"k": "cmp", "ops": [op], "es": [left, right]}
+
+    def assign(name: str, value: Any) -> dict[str, Any]:
+        return {"k": "assign", "t": nm(name), "v": value}
+
+    def if_(cond: Any, body: list, orelse: list | None = None) -> dict[str, Any]:
+        return {"k": "if", "c": cond, "body": body, "elifs": [], "else": orelse}
+
+    leave = {"k": "raise", "exc": "ValueError", "msg": "m"} if opts[1] % 2 else {"k": "ret", "v": cst(-1)}
+    params = [{"name": "a0", "t": "int"}, {"name": "a1", "t": "int"}]
+    if opts[0] % 2:
+        params.append({"name": _LAMBDA_DEFAULT, "t": "int"})
+    if shape == 0:
+        item = call("k0", nm("i0")) if opts[0] % 2 else {"k": "bin", "op": "+", "l": nm("i0"), "r": cst(1)}
+        body = [assign("v0", {"k": "list", "es": []}),
+                {"k": "for", "var": "i0", "it": call("range", call("min", nm("a0"), cst(4))), "src": "range",
+                 "body": [{"k": "expr", "v": meth(nm("v0"), "append", item)}], "else": None},
+                if_({"k": "un", "op": "not", "e": nm("v0")},
+                    [{"k": "expr", "v": meth(nm("v0"), "append", cst(0))},
+                     if_(nm("a1"), [{"k": "expr", "v": meth(nm("v0"), "append", cst(1))}])],
+                    [assign("a1", call("len", nm("v0")))] if opts[2] % 2 else None),
+                {"k": "ret", "v": call("len", nm("v0"))}]
+    elif shape == 1:
+        body = [assign("v0", cst(0)),
+                {"k": "try", "body": [assign("v0", {"k": "bin", "op": "//", "l": nm("a0"), "r": nm("a1")})],
+                 "handlers": [{"exc": ["ZeroDivisionError"], "as": None, "body": [assign("v0", cst(1))]}]
+                 + ([{"exc": ["TypeError"], "as": "e0", "body": [assign("v0", cst(2))]}] if opts[2] % 2 else []),
+                 "else": [assign("v0", {"k": "bin", "op": "+", "l": nm("v0"), "r": cst(1)}),
+                          if_(cmp(">", nm("v0"), cst(3)), [assign("v0", cst(3))])],
+                 "final": [assign("a0", {"k": "bin", "op": "*", "l": nm("v0"), "r": cst(2)}),
+                           if_(nm("a1"), [assign("a0", {"k": "bin", "op": "-", "l": nm("a0"), "r": cst(1)})])]},
+                {"k": "ret", "v": nm("v0")}]
+    else:
+        body = [{"k": "try", "body": [assign("a0", call("int", nm("a1")))],
+                 "handlers": [{"exc": ["ValueError"], "as": None, "body": [{"k": "ret", "v": cst(-1)}]}], "else": None, "final": None},
+                if_(cmp(">", nm("a0"), cst(4)), [leave]),
+                if_(cmp(">", nm("a1"), cst(3)), [{"k": "ret", "v": cst(1)}]),
+                if_(nm("a0"), [assign("a0", cst(2)), if_(cmp("<", nm("a1"), cst(0)), [assign("a0", cst(3))])]),
+                {"k": "ret", "v": nm("a0")}]
+    return {"name": DIRECTED_NAME, "kind": "func", "params": params, "ret": "int", "gw": [], "body": body}
+
+
+def add_directed(draw: Any, model: dict[str, Any], shapes: tuple[int, ...] = (0, 1, 2)) -> tuple[dict[str, Any], list[dict[str, Any]]]:
+    """Append a directed function to ``model``; returns (new model, markers that belong to the shape)."""
+    shape = draw(st.sampled_from(shapes))
+    opts = [draw(st.integers(0, 5)) for _ in range(4)]
+    model = dict(model, funcs=[*model.get("funcs", []), _directed_function(shape, opts)])
+    lay = build(model, None)
+    head = lay.names()[DIRECTED_NAME]
+    inside = range(head + 1, lay.block_end(head) + 1)
+    top = [i for i in inside if lay.ind[i] == 1]
+    if shape == 0:  # a cond/clause marker inside the function whose def line also starts a lambda
+        spots = [i for i in top if lay.kind[i] in ("for", "if", "else")]
+    elif shape == 1:  # the else clause of try/except/else/finally: its header or a statement of its body
+        els = next(i for i in top if lay.kind[i] == "else")
+        spots = [els, els + 1]
+    else:  # the ``if`` with the early exit that directly follows the try statement
+        spots = [next(i for i in top if lay.kind[i] == "if")]
+    line = spots[opts[3] % len(spots)]
+    fam = "pragma" if draw(st.integers(0, 2)) else "pynguin"
+    return model, [{"line": line - lay.py_offset, "fam": fam, "v": draw(st.integers(0, 2))}]
+
+
+def directed_plan(draw: Any, model: dict[str, Any], forced: list[dict[str, Any]], **kwargs: Any) -> dict[str, Any]:
+    """A plan of ``plan_strategy`` in which the forced markers are active and the directed function stays in cover."""
+    plan = draw(plan_strategy(model, **kwargs))
+    lines = {mk["line"] for mk in forced}
+    plan["marks"] = [mk for mk in plan["marks"] if mk["line"] not in lines] + forced
+    for mk in forced:
+        plan["flags"][0 if mk["fam"] == "pragma" else 1] = True
+    plan["no"] = [n for n in plan["no"] if n != DIRECTED_NAME]
+    plan["ignore"] = [n for n in plan["ignore"] if not n.endswith("." + DIRECTED_NAME)]
+    if plan["only"] and DIRECTED_NAME not in plan["only"]:
+        plan["only"] = [*plan["only"][:1], DIRECTED_NAME]
+    return plan
+
+
 def strategy(ctx) -> st.SearchStrategy:
     p = ctx.params
     modules = pygen.module_strategy(FEATURES, max_funcs=p.get("max_funcs", 2), max_stmts=p.get("max_stmts", 12))
@@ -397,6 +490,9 @@ def strategy(ctx) -> st.SearchStrategy:
     @st.composite
     def cases(draw: Any) -> dict[str, Any]:
         model = draw(modules)
+        if draw(st.integers(0, 7)) >= 6:  # ~25%: directed shapes (lambda on a def line, try/except/else/finally, if after try)
+            model, forced = add_directed(draw, model, shapes=(0, 0, 1, 1, 2))
+            return {"module": model, "plan": directed_plan(draw, model, forced)}
         return {"module": model, "plan": draw(plan_strategy(model))}
 
     return cases()
